@@ -89,7 +89,7 @@ func genC07(t *rapid.T) C07Case {
 		} else {
 			h = names[rapid.IntRange(0, hosts-1).Draw(t, "hidx")]
 		}
-		x := C07Conn{Host: h, Origin: rapid.SampledFrom([]string{"good", "good", "good", "expired", "wrongname", "untrusted"}).Draw(t, "origin")}
+		x := C07Conn{Host: h, Origin: rapid.SampledFrom([]string{"good", "good", "good", "expired", "wrongname", "untrusted", "plain"}).Draw(t, "origin")}
 		switch rapid.IntRange(0, 5).Draw(t, "sni") {
 		case 0:
 			x.SNI = ""
@@ -153,6 +153,20 @@ func getEnv7() (*c07Env, error) {
 		mk("expired", e.ca.Leaf(all, now.Add(-48*time.Hour), now.Add(-24*time.Hour)))
 		mk("wrongname", e.ca.Leaf([]string{"unrelated.example"}, now.Add(-time.Hour), now.Add(24*time.Hour)))
 		mk("untrusted", e.otherCA.Leaf(all, now.Add(-time.Hour), now.Add(24*time.Hour)))
+		// "plain": the target port does not speak TLS at all: it answers a ClientHello the way a clear-text HTTP server
+		// does and serves any clear-text request it is sent. Nothing can be verified about it.
+		if env7Err == nil {
+			plainHTTP := HTTPHandler(scriptedResponder, nil)
+			pp, err := StartPeer("origin-plain", "127.0.0.3", nil, func(pc *PeerConn) {
+				if b, err := pc.Br.Peek(1); err == nil && b[0] == 0x16 {
+					pc.Write([]byte("HTTP/1.1 400 Bad Request\r\nContent-Type: text/plain; charset=utf-8\r\nConnection: close\r\n\r\nClient sent an HTTPS request to an HTTP server.\n"))
+					return
+				}
+				plainHTTP(pc)
+			})
+			env7Err = err
+			e.origins["plain"] = pp
+		}
 		toOrigins := TunnelTo(func(target string) string {
 			_, p, _ := net.SplitHostPort(target)
 			return "127.0.0.3:" + p
@@ -355,11 +369,12 @@ func (e *c07Env) oneConn(px *ProxyInst, cfg C07Cfg, x C07Conn, vid string) (fail
 			got = true
 		}
 	}
-	mustVerify := x.Origin != "good" && !cfg.Insecure
+	// an origin that does not speak TLS cannot be reached over TLS, insecure mode or not
+	mustVerify := (x.Origin != "good" && !cfg.Insecure) || x.Origin == "plain"
 	switch {
 	case mustVerify:
 		if got {
-			fails = append(fails, vstat.Failf(key("unverified-origin-got-request"), "origin with a %s certificate received the request although insecure mode is off (%s)", x.Origin, desc))
+			fails = append(fails, vstat.Failf(key("unverified-origin-got-request"), "origin with a %s certificate received the request although it cannot be verified (insecure mode %v) (%s)", x.Origin, cfg.Insecure, desc))
 		}
 		if im.Status != 502 || !im.Has("X-Forwarder-Error") {
 			fails = append(fails, vstat.Failf(key("bad-origin-status"), "origin with a %s certificate: client got %d (X-Forwarder-Error %v), want 502 (%s)", x.Origin, im.Status, im.Get("X-Forwarder-Error"), desc))
